@@ -119,7 +119,9 @@ def oracle(p):
                             okk = True
                         if op[0] == 'Receive' and (got == ('conn', 6) or (got == ('conn', 3) and k == 'Data')
                                                    or (got == ('stream', 3) and k == 'WindowUpdate' and want[0] in (0, 4))):
-                            okk = True      # a frame above MAX_FRAME_SIZE / DATA beyond the connection window: judged by C18 / C04, whatever the stream state
+                            okk = True
+                        if op[0] == 'Receive' and k == 'PushPromise' and got == ('conn', 1) and (not client or rf[2] % 2 == 1 or rf[2] <= 0):
+                            okk = True      # PUSH_PROMISE received by a server (8.2), or promising an id a server cannot use (5.1.1): PROTOCOL_ERROR whatever the state      # a frame above MAX_FRAME_SIZE / DATA beyond the connection window: judged by C18 / C04, whatever the stream state
                         if not okk:
                             rule = None
                             if cat == 3:
